@@ -40,6 +40,11 @@
 (*   UnlockOrder       "mu_first": release the per-name mutex, THEN the     *)
 (*                            section. Both orders are safe (positive       *)
 (*                            control): the count covers waiters.           *)
+(*                     NB "count decremented before the per-name unlock" is *)
+(*                     what the CODE does; it is safe because the caller's  *)
+(*                     critical section ended before Unlock was called and  *)
+(*                     waiters keep the entry alive - TLC confirms both.    *)
+(*   NilMapGuard       FALSE: see below (the pinned code's defect)          *)
 EXTENDS Integers, Sequences, FiniteSets, TLC
 
 CONSTANTS Gor,              \* goroutines, a set 1..N
